@@ -212,6 +212,23 @@ def handle (j : Json) : Except String Json := do
     -- every scalar value the model treats as whitespace (the table behind `pyStrip`)
     let cps := (List.range 0x110000).filter (fun n => (n < 0xD800 || n > 0xDFFF) && pyIsSpace (Char.ofNat n))
     pure (Json.mkObj [("spaces", toJson cps)])
+  | "rotext" =>
+    -- `ro.script` / `ro.body` of a running order (no timing involved); with the implementation's observation, C17's spec
+    let ro ← (j.getObjVal? "ro").bind xmlOfJson
+    let modelJ : Json := match roScript ro, roBody ro with
+      | .ok s, .ok b => Json.mkObj [("script", toJson s), ("body", .arr (b.map bodyElJ).toArray)]
+      | .error e, _ => Json.mkObj [("crash", .str (pyExcName e))]
+      | _, .error e => Json.mkObj [("crash", .str (pyExcName e))]
+    let holds : Json := match (j.getObjVal? "impl").toOption with
+      | none => .null
+      | some ij =>
+        match strList ij "script", (ij.getObjVal? "body").bind (·.getArr?) with
+        | .ok s, .ok ba =>
+          match ba.toList.mapM bodyElOfJson with
+          | .ok b => .bool (holdsC17text ro s b)
+          | .error _ => .null
+        | _, _ => .null
+    pure (Json.mkObj [("model", modelJ), ("dom", .bool (rcOf ro).isSome), ("holds", holds)])
   | "numbers" =>
     -- the model's reading of number literals: does float() accept, the value models of float() and int()
     let ssJ ← (j.getObjVal? "strings").bind (·.getArr?)
